@@ -319,6 +319,8 @@ def run_property(prop, tier, seed, replay=None):
     except Exception:  # noqa: BLE001
         merged['errors'].append(traceback.format_exc())
 
+    if not merged['samples']:
+        inconclusive.append('the check recorded no sample case')
     known = load_known(prop)
     known_seen = {}
     new = {}
